@@ -158,6 +158,12 @@ type sEnv struct {
 	results []types.Object // named results of the function being evaluated (for naked returns)
 	// boolean locals holding a condition (scopeChanged := c.u0&2 != 0)
 	bools map[types.Object]boolVal
+	// small fixed-size local arrays, element by element; concrete loop counters
+	arrs map[types.Object][]*Ex
+	ints map[types.Object]int64
+	// uint8 locals that hold receiver bits which are not one whole metric code
+	// (a copy of a byte, `u0 := c.u0`): kept as abstract bytes for later extraction
+	bv map[types.Object]BV
 }
 
 type boolVal struct {
@@ -179,7 +185,102 @@ func (e *sEnv) clone() *sEnv {
 			n.bools[k] = v
 		}
 	}
+	if e.arrs != nil {
+		n.arrs = map[types.Object][]*Ex{}
+		for k, v := range e.arrs {
+			n.arrs[k] = append([]*Ex(nil), v...)
+		}
+	}
+	if e.ints != nil {
+		n.ints = map[types.Object]int64{}
+		for k, v := range e.ints {
+			n.ints[k] = v
+		}
+	}
+	if e.bv != nil {
+		n.bv = map[types.Object]BV{}
+		for k, v := range e.bv {
+			n.bv[k] = v
+		}
+	}
 	return n
+}
+
+// bvEnvOf: the bit evaluator with this environment's byte-valued locals
+func (e *sEnv) bvEnvOf() *bvEnv {
+	b := newBvEnv(e.c.p)
+	for k, v := range e.bv {
+		b.locals[k] = v
+	}
+	return b
+}
+
+// mentionsBits: x reads a receiver byte or a local that holds receiver bits
+func (e *sEnv) mentionsBits(x ast.Node) bool {
+	if e.c.p.containsObjField(x) {
+		return true
+	}
+	found := false
+	ast.Inspect(x, func(n ast.Node) bool {
+		if id, ok := n.(*ast.Ident); ok {
+			if _, ok := e.bv[identObj(e.c.p.Info, id)]; ok {
+				found = true
+			}
+		}
+		return !found
+	})
+	return found
+}
+
+// intOf: a concrete integer — a constant, a loop counter, len of a local array
+func (e *sEnv) intOf(x ast.Expr) (int64, bool) {
+	info := e.c.p.Info
+	if u, ok := constInt64(info, x); ok {
+		return u, true
+	}
+	switch n := x.(type) {
+	case *ast.ParenExpr:
+		return e.intOf(n.X)
+	case *ast.Ident:
+		if v, ok := e.ints[identObj(info, n)]; ok {
+			return v, true
+		}
+	case *ast.CallExpr:
+		if id, ok := n.Fun.(*ast.Ident); ok && id.Name == "len" && len(n.Args) == 1 {
+			if a, ok := e.arrs[identObj(info, n.Args[0])]; ok {
+				return int64(len(a)), true
+			}
+		}
+	case *ast.BinaryExpr:
+		a, ok1 := e.intOf(n.X)
+		b, ok2 := e.intOf(n.Y)
+		if ok1 && ok2 {
+			switch n.Op {
+			case token.ADD:
+				return a + b, true
+			case token.SUB:
+				return a - b, true
+			}
+		}
+	}
+	return 0, false
+}
+
+// arrayElem resolves a[i] on a local array with a concrete index.
+func (e *sEnv) arrayElem(ix *ast.IndexExpr) (types.Object, int, bool) {
+	o := identObj(e.c.p.Info, ix.X)
+	if o == nil {
+		return nil, 0, false
+	}
+	a, ok := e.arrs[o]
+	if !ok {
+		return nil, 0, false
+	}
+	i, ok := e.intOf(ix.Index)
+	if !ok || i < 0 || int(i) >= len(a) {
+		return nil, 0, false
+	}
+	return o, int(i), true
 }
 
 // domain of a metric-level input name ("S", "eS") as value strings, in code order.
@@ -277,7 +378,9 @@ func (e *sEnv) codeOf(x ast.Expr) (codeSym, error) {
 		if c, ok := e.codes[identObj(p.Info, id)]; ok {
 			return c, nil
 		}
-		return codeSym{}, e.fail(x, "identifier %s does not hold a metric code", id.Name)
+		if _, ok := e.bv[identObj(p.Info, id)]; !ok {
+			return codeSym{}, e.fail(x, "identifier %s does not hold a metric code", id.Name)
+		}
 	}
 	if call, ok := x.(*ast.CallExpr); ok {
 		fn := calleeOf(p.Info, call)
@@ -342,10 +445,13 @@ func (e *sEnv) codeOf(x ast.Expr) (codeSym, error) {
 				}
 			}
 		}
-		return codeSym{}, e.fail(x, "call does not produce a metric code")
+		if !e.mentionsBits(x) {
+			return codeSym{}, e.fail(x, "call does not produce a metric code")
+		}
+		// a field-extraction helper applied to receiver bytes: the bit evaluator inlines it
 	}
-	if p.containsObjField(x) {
-		bv, err := newBvEnv(p).eval(x)
+	if e.mentionsBits(x) {
+		bv, err := e.bvEnvOf().eval(x)
 		if err != nil {
 			return codeSym{}, err
 		}
@@ -380,6 +486,9 @@ func (e *sEnv) ex(x ast.Expr) (*Ex, error) {
 				return nil, e.fail(x, "variable %s read before assignment", n.Name)
 			}
 			return v, nil
+		}
+		if iv, ok := e.ints[o]; ok {
+			return mkConst(new(big.Rat).SetInt64(iv)), nil
 		}
 		return nil, e.fail(x, "identifier %s has no symbolic value", n.Name)
 	case *ast.UnaryExpr:
@@ -420,6 +529,9 @@ func (e *sEnv) ex(x ast.Expr) (*Ex, error) {
 			return mkCall("imod", a, b), nil
 		}
 	case *ast.IndexExpr:
+		if o, i, ok := e.arrayElem(n); ok {
+			return e.arrs[o][i], nil
+		}
 		// direct lookup weightTable[code] (possibly two-dimensional)
 		var idxExprs []ast.Expr
 		base := ast.Expr(n)
@@ -925,9 +1037,46 @@ func (e *sEnv) cond(x ast.Expr) (*Cnd, bool, error) {
 
 func (e *sEnv) assign(lhs ast.Expr, rhs ast.Expr) error {
 	p := e.c.p
+	if ix, ok := lhs.(*ast.IndexExpr); ok {
+		if o, i, ok := e.arrayElem(ix); ok {
+			v, err := e.ex(rhs)
+			if err != nil {
+				return err
+			}
+			e.arrs[o][i] = v
+			return nil
+		}
+	}
 	id, ok := lhs.(*ast.Ident)
 	if !ok {
 		return e.fail(lhs, "assignment target outside the formula language")
+	}
+	if o := identObj(p.Info, id); o != nil {
+		if at, isArr := o.Type().Underlying().(*types.Array); isArr && isFloat(at.Elem()) && at.Len() <= 16 {
+			cl, isLit := rhs.(*ast.CompositeLit)
+			if !isLit || int64(len(cl.Elts)) > at.Len() {
+				return e.fail(rhs, "array value that is not a literal")
+			}
+			elems := make([]*Ex, at.Len())
+			for i := range elems {
+				elems[i] = mkConst(new(big.Rat))
+			}
+			for i, el := range cl.Elts {
+				if _, keyed := el.(*ast.KeyValueExpr); keyed {
+					return e.fail(rhs, "keyed array literal")
+				}
+				v, err := e.ex(el)
+				if err != nil {
+					return err
+				}
+				elems[i] = v
+			}
+			if e.arrs == nil {
+				e.arrs = map[types.Object][]*Ex{}
+			}
+			e.arrs[o] = elems
+			return nil
+		}
 	}
 	if id.Name == "_" {
 		return nil
@@ -939,9 +1088,23 @@ func (e *sEnv) assign(lhs ast.Expr, rhs ast.Expr) error {
 	if isUint8(o.Type()) {
 		c, err := e.codeOf(rhs)
 		if err != nil {
+			// not one metric code: a copy of receiver bits (u0 := c.u0, x := c.u1 >> 4)?
+			if e.mentionsBits(rhs) {
+				if v, err2 := e.bvEnvOf().eval(rhs); err2 == nil {
+					if _, clean := v.inBits(); clean {
+						if e.bv == nil {
+							e.bv = map[types.Object]BV{}
+						}
+						e.bv[o] = v
+						delete(e.codes, o)
+						return nil
+					}
+				}
+			}
 			return err
 		}
 		e.codes[o] = c
+		delete(e.bv, o)
 		return nil
 	}
 	if b, ok := o.Type().Underlying().(*types.Basic); ok && b.Info()&types.IsBoolean != 0 {
@@ -1001,6 +1164,14 @@ func (e *sEnv) block(stmts []ast.Stmt) (*Ex, bool, error) {
 				v, err := e.ex(&ast.BinaryExpr{X: st.Lhs[0], Op: op, Y: st.Rhs[0]})
 				if err != nil {
 					return nil, false, err
+				}
+				if ix, isIx := st.Lhs[0].(*ast.IndexExpr); isIx {
+					o, i, ok := e.arrayElem(ix)
+					if !ok {
+						return nil, false, e.fail(s, "indexed assignment outside the formula language")
+					}
+					e.arrs[o][i] = v
+					continue
 				}
 				e.vars[identObj(p.Info, st.Lhs[0])] = v
 				continue
@@ -1135,7 +1306,21 @@ func (e *sEnv) block(stmts []ast.Stmt) (*Ex, bool, error) {
 				}
 				return ite(r, r2), true, nil
 			}
-			// merge
+			// merge (locals declared inside a branch end with it)
+			scoped := map[types.Object]bool{}
+			for _, br := range []ast.Node{st.Body, st.Else} {
+				if br == nil || br == ast.Node((*ast.BlockStmt)(nil)) {
+					continue
+				}
+				ast.Inspect(br, func(n ast.Node) bool {
+					if id, ok := n.(*ast.Ident); ok {
+						if o := p.Info.Defs[id]; o != nil {
+							scoped[o] = true
+						}
+					}
+					return true
+				})
+			}
 			keys := map[types.Object]bool{}
 			for k := range te.vars {
 				keys[k] = true
@@ -1144,6 +1329,10 @@ func (e *sEnv) block(stmts []ast.Stmt) (*Ex, bool, error) {
 				keys[k] = true
 			}
 			for k := range keys {
+				if scoped[k] {
+					delete(e.vars, k)
+					continue
+				}
 				a, b := te.vars[k], ee.vars[k]
 				switch {
 				case a != nil && b != nil:
@@ -1154,17 +1343,238 @@ func (e *sEnv) block(stmts []ast.Stmt) (*Ex, bool, error) {
 					return nil, false, e.fail(s, "variable %s assigned on one branch only", k.Name())
 				}
 			}
+			for k, a := range te.arrs {
+				b, ok := ee.arrs[k]
+				if !ok || len(a) != len(b) {
+					return nil, false, e.fail(s, "array %s defined on one branch only", k.Name())
+				}
+				if e.arrs == nil {
+					e.arrs = map[types.Object][]*Ex{}
+				}
+				merged := make([]*Ex, len(a))
+				for i := range a {
+					if a[i] == b[i] {
+						merged[i] = a[i]
+					} else {
+						merged[i] = ite(a[i], b[i])
+					}
+				}
+				e.arrs[k] = merged
+			}
 			for k, a := range te.codes {
 				if b, ok := ee.codes[k]; !ok || a != b {
 					return nil, false, e.fail(s, "metric code variable %s differs between branches", k.Name())
 				}
 				e.codes[k] = a
 			}
+		case *ast.SwitchStmt:
+			// a switch without fallthrough is the if / else-if chain of its cases
+			// in source order, the default last
+			if st.Init != nil {
+				return nil, false, e.fail(s, "switch with initialiser")
+			}
+			var chain *ast.IfStmt
+			var last *ast.IfStmt
+			var deflt *ast.BlockStmt
+			for _, cs := range st.Body.List {
+				cc := cs.(*ast.CaseClause)
+				for _, b := range cc.Body {
+					if br, ok := b.(*ast.BranchStmt); ok && (br.Tok == token.FALLTHROUGH || br.Tok == token.BREAK) {
+						return nil, false, e.fail(s, "switch with fallthrough or break")
+					}
+				}
+				if cc.List == nil {
+					deflt = &ast.BlockStmt{List: cc.Body}
+					continue
+				}
+				var cond ast.Expr
+				for _, ce := range cc.List {
+					c := ce
+					if st.Tag != nil {
+						c = &ast.BinaryExpr{X: st.Tag, Op: token.EQL, Y: ce}
+					}
+					if cond == nil {
+						cond = c
+					} else {
+						cond = &ast.BinaryExpr{X: cond, Op: token.LOR, Y: c}
+					}
+				}
+				ifs := &ast.IfStmt{If: cc.Pos(), Cond: cond, Body: &ast.BlockStmt{List: cc.Body}}
+				if chain == nil {
+					chain = ifs
+				} else {
+					last.Else = ifs
+				}
+				last = ifs
+			}
+			var repl []ast.Stmt
+			switch {
+			case chain == nil && deflt != nil:
+				repl = deflt.List
+			case chain == nil:
+			default:
+				if deflt != nil {
+					last.Else = deflt
+				}
+				repl = []ast.Stmt{chain}
+			}
+			return e.block(append(append([]ast.Stmt(nil), repl...), stmts[i+1:]...))
+		case *ast.BlockStmt:
+			r, ret, err := e.block(st.List)
+			if err != nil || ret {
+				return r, ret, err
+			}
+		case *ast.RangeStmt, *ast.ForStmt:
+			// a loop over a small local array, or a counting loop with concrete
+			// bounds, is unrolled (its body may not leave it early)
+			if err := e.unroll(s); err != nil {
+				return nil, false, err
+			}
+		case *ast.IncDecStmt:
+			o := identObj(p.Info, st.X)
+			if v, ok := e.ints[o]; ok {
+				if st.Tok == token.INC {
+					e.ints[o] = v + 1
+				} else {
+					e.ints[o] = v - 1
+				}
+				continue
+			}
+			return nil, false, e.fail(s, "statement %T outside the formula language", s)
 		default:
 			return nil, false, e.fail(s, "statement %T outside the formula language", s)
 		}
 	}
 	return nil, false, nil
+}
+
+func (e *sEnv) unroll(s ast.Stmt) error {
+	p := e.c.p
+	info := p.Info
+	leaves := false
+	var body *ast.BlockStmt
+	switch st := s.(type) {
+	case *ast.RangeStmt:
+		body = st.Body
+	case *ast.ForStmt:
+		body = st.Body
+	}
+	ast.Inspect(body, func(n ast.Node) bool {
+		switch n.(type) {
+		case *ast.BranchStmt, *ast.ReturnStmt:
+			leaves = true
+		}
+		return true
+	})
+	if leaves {
+		return e.fail(s, "loop left early: outside the formula language")
+	}
+	if e.ints == nil {
+		e.ints = map[types.Object]int64{}
+	}
+	runBody := func() error {
+		_, ret, err := e.block(body.List)
+		if err != nil {
+			return err
+		}
+		if ret {
+			return e.fail(s, "return inside a loop")
+		}
+		return nil
+	}
+	switch st := s.(type) {
+	case *ast.RangeStmt:
+		ao := identObj(info, st.X)
+		arr, ok := e.arrs[ao]
+		n := len(arr)
+		if !ok {
+			// `for i := range N` with a concrete N
+			c, okc := e.intOf(st.X)
+			if !okc || c < 0 || c > 64 {
+				return e.fail(s, "range over something other than a small local array")
+			}
+			n = int(c)
+			if st.Value != nil {
+				return e.fail(s, "range over an integer with two variables")
+			}
+		}
+		var ko, vo types.Object
+		if st.Key != nil {
+			ko = identObj(info, st.Key)
+		}
+		if st.Value != nil {
+			vo = identObj(info, st.Value)
+		}
+		for i := 0; i < n; i++ {
+			if ko != nil {
+				e.ints[ko] = int64(i)
+			}
+			if vo != nil {
+				// the value variable is a copy taken when the loop started
+				e.vars[vo] = arr[i]
+			}
+			if err := runBody(); err != nil {
+				return err
+			}
+		}
+		if ko != nil {
+			delete(e.ints, ko)
+		}
+		return nil
+	case *ast.ForStmt:
+		as, ok := st.Init.(*ast.AssignStmt)
+		if !ok || len(as.Lhs) != 1 || len(as.Rhs) != 1 || as.Tok != token.DEFINE {
+			return e.fail(s, "loop without a counter initialisation")
+		}
+		co := identObj(info, as.Lhs[0])
+		start, ok := e.intOf(as.Rhs[0])
+		if !ok || co == nil {
+			return e.fail(s, "loop counter does not start at a concrete integer")
+		}
+		inc, ok := st.Post.(*ast.IncDecStmt)
+		if !ok || identObj(info, inc.X) != co || inc.Tok != token.INC {
+			return e.fail(s, "loop post statement is not counter++")
+		}
+		if assignedIn(info, st.Body, co) {
+			return e.fail(s, "loop counter written in the body")
+		}
+		be, ok := st.Cond.(*ast.BinaryExpr)
+		if !ok || identObj(info, be.X) != co {
+			return e.fail(s, "loop condition outside the formula language")
+		}
+		e.ints[co] = start
+		for iter := 0; ; iter++ {
+			if iter > 64 {
+				return e.fail(s, "loop too long to unroll")
+			}
+			bound, ok := e.intOf(be.Y)
+			if !ok {
+				return e.fail(s, "loop bound is not a concrete integer")
+			}
+			cur := e.ints[co]
+			var goOn bool
+			switch be.Op {
+			case token.LSS:
+				goOn = cur < bound
+			case token.LEQ:
+				goOn = cur <= bound
+			case token.NEQ:
+				goOn = cur != bound
+			default:
+				return e.fail(s, "loop condition outside the formula language")
+			}
+			if !goOn {
+				break
+			}
+			if err := runBody(); err != nil {
+				return err
+			}
+			e.ints[co] = cur + 1
+		}
+		delete(e.ints, co)
+		return nil
+	}
+	return e.fail(s, "statement %T outside the formula language", s)
 }
 
 // treeOf computes the formula tree of a method or function; float parameters
